@@ -72,6 +72,19 @@ def run(ck: Check):
         tc = (b"", parts, [True] * len(parts), b"")
         for cfg in ({}, {"repeat": "always"}, {"move": True}):
             ex.dfs("minimize-balanced", cfg, tc, stream="balanced-lexical-context", max_runs=200 if quick else 2000)
+    # atoms whose CRC-32 / Adler-32 (and lengths) collide: candidates that differ only in them are different files - a
+    # de-dupe key weaker than the content would skip one of them untested
+    COLL = [b"plumless\n", b"buckeroo\n", b"keep\n", b"(\n", b")\n"]
+    for tc in small_layouts(4 if quick else 5, alphabet=COLL[:3], with_nonred=False):
+        if len(tc[1]) >= 3 and b"plumless\n" in tc[1] and b"buckeroo\n" in tc[1]:
+            for st_ in ("minimize-around", "minimize-balanced"):
+                ex.dfs(st_, {}, tc, stream="colliding-atoms", max_runs=40 if quick else 400)
+    for parts in ([b"keep1\n", b"plumless\n", b"keep2\n", b"buckeroo\n"], [b"plumless\n", b"k\n", b"buckeroo\n", b"k\n", b"x\n"],
+                  [b"(\n", b"plumless\n", b")\n", b"buckeroo\n"]):
+        tc = (b"", parts, [True] * len(parts), b"")
+        for st_ in ("minimize-around", "minimize-balanced"):
+            for cfg in ({}, {"repeat": "always"}):
+                ex.dfs(st_, cfg, tc, stream="colliding-atoms", max_runs=150 if quick else 1500)
     from universe import reuse_universe
     reuse_universe(ex, ck, strategies=("minimize-around", "minimize-balanced"))
     ex.diff()
